@@ -168,6 +168,15 @@ def scale(u):
     return chain_scale(u)
 
 
+# dimension of a unit: the exponent vector over base elements its chain of
+# definitions denotes (ghost, fixed when the unit is created, like the scale)
+unit_dim = z3.Function("unit_dim", Obj, M.VecSort)
+
+
+def dim(u):
+    return unit_dim(u)
+
+
 def unit_quantum(h, u):
     """(has_quantum, quantum) of a unit: the currency's smallest fraction, or
     the type's quantum divided by the unit's scale."""
@@ -245,6 +254,7 @@ def wf_unit(h, u):
             z3.Not(equiv_none(h, u)), equiv(h, u) > 0,
             exact_tag(equiv_tag(h, u)), equiv(h, u) == scale(u))),
         z3.Implies(z3.Not(linear(h, c)), equiv_none(h, u)),
+        wf_unit_den(h, u),
         z3.Implies(is_currency(h, u), z3.And(
             smallest_fraction(h, u) > 0,
             z3.Not(h.get("Unit._smallest_fraction#unset", u)),
@@ -331,16 +341,15 @@ def is_num(v: V) -> bool:
 
 
 def wf_unit_den(h, u):
-    """the part of wf_unit that speaks about the unit's denotation as a term
-    element (needed by the product / quotient contracts only)"""
+    """the unit's denotation as a term element is (chain_scale, dimension):
+    the numeric factor and the exponent vector of its chain of definitions;
+    all units of a type with reference unit have the type's dimension"""
     from .term import unit_den
     c = qty_cls(h, u)
     n, v = unit_den(h, u)
-    rn, rv_ = unit_den(h, ref_unit(h, c))
+    r = ref_unit(h, c)
     return z3.And(
-        n > 0, v != M.ZERO_VEC,
+        n == scale(u), v == dim(u), scale(u) > 0, dim(u) != M.ZERO_VEC,
         z3.Implies(z3.Not(def_none(h, u)),
                    alloc(h, h.get("Unit._definition", u))),
-        # for a type with reference unit the numeric part of the denotation is
-        # the scale, and all units of the type have the type's dimension
-        z3.Implies(linear(h, c), z3.And(n == scale(u), v == rv_, rn == 1)))
+        z3.Implies(linear(h, c), z3.And(dim(u) == dim(r), scale(r) == 1)))
